@@ -17,7 +17,9 @@ RULE = ("the REAL apps/nsqd binary (built -tags verif from the repository under 
         "35% of the cycles hold deleters at before-remove until pending Notify goroutines are done (the F6 schedule); a concurrent reader samples "
         "nsqd.dat every ~150 us; 15% of the scenarios run under strace -f (openat/write/fsync/close/rename*/unlink*/truncate* projected on nsqd.dat*); "
         "after each kill nsqd.dat is read and the daemon restarted. (b) crafted nsqd.dat files fed to start-up: invalid names, duplicate topics/channels "
-        "with conflicting paused flags, ephemeral names, truncation at a random byte, garbage, absent file. (c) data-path lock: second daemon on a "
+        "with conflicting paused flags, ephemeral names, truncation at a random byte, garbage, absent file. (c) write faults: after 0-3 creations the daemon lowers its own RLIMIT_FSIZE to 1-100 bytes (hook NSQ_VERIF_FSIZE, SIGXFSZ ignored; judged only when /proc/<pid>/limits shows the limit), so every later "
+        "write of a temp metadata file is cut short and fails with EFBIG while fsync/close/rename work; 1-6 further requests, SIGKILL, restart: nsqd.dat must still be the complete document it was when the fault was armed "
+        "and the daemon must start on it. (d) data-path lock: second daemon on a "
         "live path, third after SIGKILL. A case is non-trivial when at least one request was sent / a file was present; distinct = distinct recorded histories.")
 TRUSTED = [
     "modelled, not verified: the Go scheduler, sync.RWMutex (NSQD.Lock excludes other lockers; RLock blocks while a writer holds it), atomic flag stores, "
@@ -35,11 +37,13 @@ ASSUMPTIONS = [
     "different instants, so 'the restart state is ONE live state the daemon passed through' is refuted in general (C06_atomic_full_refuted; reproduced on the real daemon on every run, case fixed-K8-mixed-document), "
     "proved componentwise for all schedules (C06_atomic), and proved exactly outside the K8 region (C06_atomic_outside) which contains every sequential-client schedule (C06_atomic_sequential)",
     "C06_pause_acked is proved for topic pause/unpause; the channel variant has the same handler shape (checked by C06_source_shape, exercised by the driver's monitor) but its proof is not mechanised",
-    "persist failures (disk full, EIO) are not modelled: PersistMetadata is assumed to succeed",
+    "write faults (ENOSPC / EDQUOT / EFBIG / EIO on the temp file) are modelled as the event EFault: C06_atomic, C06_atomic_outside/_sequential and C06_write_fault_keeps_dat hold with any number of them; "
+    "C06_idle_full and C06_pause_acked are stated for fault-free schedules (after a failed persist the code only logs the error - the pause handlers even answer 200 - so the file is stale until the next successful persist); "
+    "faults of fsync/close/rename/open are not modelled",
 ]
 LEVEL_TEXT = ("Machine-checked proof (Coq 8.16.1) over an executable small-step model of the daemon's metadata persistence (model/Meta.v): request threads as lists of "
               "atomic micro-steps in program order, a counter of pending Notify goroutines, one persist job holding the NSQD lock that reads the topics one by one and "
-              "then performs open(O_TRUNC) tmp / write (any chunking) / fsync / close / rename, a file system, SIGKILL and restart (tolerant load + start-up persist). "
+              "then performs open(O_TRUNC) tmp / write (any chunking, or a write FAULT after a partial write: no fsync, no rename) / fsync / close / rename, a file system, SIGKILL and restart (tolerant load + start-up persist). "
               "For EVERY schedule (all interleavings, kills between any two steps and inside the write, any number of restarts): nsqd.dat is absent or a completely "
               "written, fsynced document whose topic set is that of a live state passed through and whose entries are persisted forms of topics in live states passed "
               "through, and no restart finds an undecodable file (C06_atomic); the stronger 'the document is ONE passed-through live state' is refuted by a concrete schedule (C06_atomic_full_refuted, known finding K8), proved for every schedule in which "
@@ -51,7 +55,7 @@ LEVEL_TEXT = ("Machine-checked proof (Coq 8.16.1) over an executable small-step 
 LEVEL_NOTE = ("KNOWN FINDING K8 (replayed on every run, case fixed-K8-mixed-document, tag kf=K8): two concurrent channel deleters parked between lookup and map removal plus a Notify persist parked between "
               "two topic reads of GetMetadata leave nsqd.dat = {a/x, b} after SIGKILL although the daemon only ever had {} {a} {a,b} {a,b/y} {a/x,b/y} {a,b/y} {a,b}; the full 'one passed-through state' clause therefore holds only outside "
               "that region (sequential clients included). Trusted: Coq kernel + vm_compute; the hand-written model (scheduler, locks, JSON, file system modelled, see trusted_base); gotables (syntax only); the verif hooks; "
-              "the correspondence is sampled, the theorems are not. Partial: power-loss durability and flock are OS behaviour (tested, not proved); channel pause proof not mechanised; persist I/O errors not modelled.")
+              "the correspondence is sampled, the theorems are not. Partial: power-loss durability and flock are OS behaviour (tested, not proved); channel pause proof not mechanised; write faults covered for atomicity only (idle/pause theorems assume fault-free schedules); fsync/rename faults not modelled.")
 TECHNIQUE = "Coq invariant proofs over all interleavings and crash points of a small-step model + differential correspondence on the real daemon (SIGKILL at named points, strace)"
 DESIGN_REF = "DESIGN.md §5 C06"
 SEARCH_SCALE = 4
@@ -61,5 +65,6 @@ def drivers():
     def args(tier, seed, scale):
         n = (300 if tier == "quick" else 3000) * scale
         nl = (40 if tier == "quick" else 400) * scale
-        return ["-n", str(n), "-nload", str(nl), "-seed", str(seed)]
+        nf = (10 if tier == "quick" else 100) * scale
+        return ["-n", str(n), "-nload", str(nl), "-nfault", str(nf), "-seed", str(seed)]
     return [{"driver": "metadrive", "args": args, "replay_args": lambda tier: []}]
